@@ -708,6 +708,14 @@ class Model:
                             if isinstance(t, ast.Subscript) and isinstance(t.value, ast.Attribute) \
                                     and isinstance(t.value.value, ast.Name) and t.value.value.id == 'self':
                                 fn.cls.elem_types[t.value.attr] |= self.expr_types(fn, n.value, env)
+            # annotated fields of record classes (portfolio: Portfolio in a dataclass / NamedTuple body): the annotation names the type
+            for c in self.classes.values():
+                for m in c.node.body:
+                    if isinstance(m, ast.AnnAssign) and isinstance(m.target, ast.Name):
+                        an = m.annotation
+                        nm = an.id if isinstance(an, ast.Name) else (an.attr if isinstance(an, ast.Attribute) else (an.value if isinstance(an, ast.Constant) and isinstance(an.value, str) else None))
+                        if nm and nm in self.cls_by_name:
+                            c.field_types[m.target.id] |= {nm}
             self._propagate_params()
         self._rt_cache = {}
         self._env_cache = {}
